@@ -62,6 +62,7 @@ class C24(Check):
                   "over-limit or malformed program is rejected; the counting of the pinned tree is refuted by a witness (six ternary "
                   "dependencies), repaired by a fix: commit. Tie: generated JDFs (valid at/around each limit, and malformed) go through "
                   "the real parsec-ptgpp in its default generate-and-compile mode; exit status is compared with the model's decision. "
+                  "A second mode, 'parsec-ptgpp --Werror -E', is observed too: exit status 0 there must come with C that compiles. "
                   "'Emitted C compiles', 'no non-NULL element overflows a runtime array' (gcc's excess-initializer diagnostics on the "
                   "generated C) and 'same input, same output' (two runs diffed) are TESTED on every program, not proved.")
     level_note = ("Trusted: Coq kernel, extraction, tools/jdflimits.py (two printers from one structure: JDF text and model case), gcc's "
